@@ -265,20 +265,20 @@ RECIPES += [
     _rev("break", _S, "s[1:] == s[:-1]", "samples on monotone stretches are marked instead of the reversals", ["C10-R6"]),
     _rev("break", _S, "np.abs(np.diff(s)) == 1", "a jump of 1 between slope signs never happens on retained samples: no interior reversal is marked", ["C10-R6"]),
     # -------------------------------------------------------------------------------------------------------------- neutral
-    _rev("neutral", _S, "s[1:] != s[:-1]", "neighbouring slope signs differ"),
+    _rev("break", _S, "s[1:] != s[:-1]", "neighbouring slope signs differ [pass 6: NOT neutral - a zero slope between two equal retained samples of a drift signal marks both]", ["C10-R6"]),
     _rev("neutral", _S, "s[:-1] * s[1:] < 0", "product of the slope SIGNS (values in {-1, 0, 1}: cannot overflow)"),
-    _rev("neutral", _D, "(d[:-1] > 0) != (d[1:] > 0)", "slopes compared with 0, masks compared"),
+    _rev("break", _D, "(d[:-1] > 0) != (d[1:] > 0)", "slopes compared with 0, masks compared [pass 6: NOT neutral - a zero slope between two equal retained samples of a drift signal marks both]", ["C10-R6"]),
     _rev("neutral", _D, "((d[:-1] > 0) & (d[1:] < 0)) | ((d[:-1] < 0) & (d[1:] > 0))", "peak-or-valley spelled with mask operators"),
     _rev("neutral", "        mid, lft, rgt = yu[1:-1], yu[:-2], yu[2:]\n", "((mid > lft) & (mid > rgt)) | ((mid < lft) & (mid < rgt))", "samples compared directly with both neighbours, no differences at all"),
     _rev("neutral", "        d = np.diff(yu.astype(float))\n", "d[:-1] * d[1:] < 0", "slope product after converting the samples to float (identical unless the product underflows, |slope| < 1e-162)"),
     _rev("neutral", "        d = np.diff(yu).astype(np.float64)\n", "d[:-1] * d[1:] < 0", "slope product after converting the slopes to float64"),
-    _rev("neutral", _D, "np.logical_xor(d[:-1] > 0, d[1:] > 0)", "np.logical_xor of the two slope tests"),
-    _rev("neutral", _D, "(d[:-1] > 0) ^ (d[1:] > 0)", "^ on the two slope masks"),
-    _rev("neutral", _D, "np.signbit(d[:-1]) != np.signbit(d[1:])", "np.signbit of the slopes"),
-    _rev("neutral", _D, "np.sign(d[:-1]) + np.sign(d[1:]) == 0", "the two slope signs cancel"),
-    _rev("neutral", _S, "np.where(s[:-1] == s[1:], False, True)", "np.where over equal signs"),
-    _rev("neutral", _S, "~(s[:-1] == s[1:])", "inverted equality mask"),
-    _rev("neutral", _S, "np.abs(np.diff(s)) > 0", "any non-zero jump of the slope sign (0 and 2 are the only jumps on retained samples)"),
+    _rev("break", _D, "np.logical_xor(d[:-1] > 0, d[1:] > 0)", "np.logical_xor of the two slope tests [pass 6: NOT neutral - a zero slope between two equal retained samples of a drift signal marks both]", ["C10-R6"]),
+    _rev("break", _D, "(d[:-1] > 0) ^ (d[1:] > 0)", "^ on the two slope masks [pass 6: NOT neutral - a zero slope between two equal retained samples of a drift signal marks both]", ["C10-R6"]),
+    _rev("break", _D, "np.signbit(d[:-1]) != np.signbit(d[1:])", "np.signbit of the slopes [pass 6: NOT neutral - a zero slope between two equal retained samples of a drift signal marks both]", ["C10-R6"]),
+    _rev("break", _D, "np.sign(d[:-1]) + np.sign(d[1:]) == 0", "the two slope signs cancel [pass 6: NOT neutral - a zero slope between two equal retained samples of a drift signal marks both]", ["C10-R6"]),
+    _rev("break", _S, "np.where(s[:-1] == s[1:], False, True)", "np.where over equal signs [pass 6: NOT neutral - a zero slope between two equal retained samples of a drift signal marks both]", ["C10-R6"]),
+    _rev("break", _S, "~(s[:-1] == s[1:])", "inverted equality mask [pass 6: NOT neutral - a zero slope between two equal retained samples of a drift signal marks both]", ["C10-R6"]),
+    _rev("break", _S, "np.abs(np.diff(s)) > 0", "any non-zero jump of the slope sign (0 and 2 are the only jumps on retained samples) [pass 6: NOT neutral - a zero slope between two equal retained samples of a drift signal marks both]", ["C10-R6"]),
     _rev("neutral", _D, "d[:-1] / d[1:] < 0", "sign of the quotient of the slopes (true division is floating point; slopes of retained samples are never 0)"),
 ]
 
@@ -987,4 +987,62 @@ RECIPES += [
      '        f = "{{:.{}f}}".format(precision)\n        f = "{0}, {0}".format(f)\n        if right:\n            form = "[{})".format(f)\n'
      '        else:\n            form = "({}]".format(f)\n',
      'last pass: str.format label forms of the two `right` settings exchanged'),
+]
+
+# pass 6: (a) the vectorised findap on drift signals (two neighbouring retained samples exactly equal: slope sign 0); (b) _binify accumulating
+# through a flattened view of the table (flat index -> (row, column) by divmod)
+_S_OLD = '        s = np.sign(np.diff(yu))\n'
+_PV_OLD = '        pv[1:-1] = np.abs(np.diff(s)) == 2\n'
+_ACC_OLD = ('        for i in range(len(cycles)):\n            bim = bin_indices_mean[i]\n            bir = bin_indices_range[i]\n'
+            '            if (0 <= bim < num_bins_mean) and (0 <= bir < num_bins_range):\n                markov_matrix[bim, bir] += cycles[i, 2]\n')
+_FLAT_HEAD = '        for i in range(len(cycles)):\n            bim = bin_indices_mean[i]\n            bir = bin_indices_range[i]\n'
+RECIPES += [
+    ("C10", 'break', ['C10-R6'], CYC, _PV_OLD, '        pv[1:-1] = (s[1:] > 0) != (s[:-1] > 0)\n',
+     'pass 6: direction flips of a boolean "rising" flag (zero slope counts as falling: both samples of an equal retained pair are marked)'),
+    ("C10", 'break', ['C10-R6'], CYC, _PV_OLD, '        pv[1:-1] = np.diff(s) != 0\n',
+     'pass 6: any change of the slope sign marks a reversal (0 -> 1 after an equal retained pair included)'),
+    ("C10", 'break', ['C10-R6'], CYC, _PV_OLD, '        pv[1:-1] = np.abs(np.diff(s)) >= 1\n',
+     'pass 6: |change of slope sign| >= 1 instead of == 2'),
+    ("C10", 'break', ['C10-R6'], CYC, _S_OLD, '        s = np.where(np.diff(yu) > 0, 1, -1)\n',
+     'pass 6: two-valued slope sign, zero slope counted as falling'),
+    ("C10", 'break', ['C10-R6'], CYC, _S_OLD, '        s = np.where(np.diff(yu) >= 0, 1, -1)\n',
+     'pass 6: two-valued slope sign, zero slope counted as rising'),
+    ("C10", 'neutral', [], CYC, _PV_OLD, '        pv[1:-1] = s[1:] * s[:-1] < 0\n',
+     'pass 6: product of the slope signs negative (a zero slope never marks)'),
+    ("C10", 'neutral', [], CYC, _PV_OLD, '        pv[1:-1] = (s[1:] != s[:-1]) & (s[1:] != 0) & (s[:-1] != 0)\n',
+     'pass 6: signs differ and neither is zero'),
+    ("C10", 'neutral', [], CYC, _PV_OLD, '        pv[1:-1] = ((s[:-1] > 0) & (s[1:] < 0)) | ((s[:-1] < 0) & (s[1:] > 0))\n',
+     'pass 6: rising then falling, or falling then rising'),
+    ("C10", 'neutral', [], CYC, _S_OLD, '        d = np.diff(yu)\n        s = np.where(d > 0, 1, np.where(d < 0, -1, 0))\n',
+     'pass 6: three-valued slope sign spelled with nested np.where'),
+    ("C10", 'break', ['C10-R5'], CYC, _ACC_OLD,
+     '        flat = markov_matrix.ravel()\n        for i in range(len(cycles)):\n            k = bin_indices_mean[i] * num_bins_range + bin_indices_range[i]\n'
+     '            if 0 <= k < flat.size:\n                flat[k] += cycles[i, 2]\n',
+     'pass 6: accumulation through the flattened view, bounds tested on the flat index only'),
+    ("C10", 'break', ['C10-R5'], CYC, _ACC_OLD,
+     '        flat = np.ravel(markov_matrix)\n        for i in range(len(cycles)):\n            k = bin_indices_mean[i] * num_bins_range + bin_indices_range[i]\n'
+     '            if 0 <= k < num_bins_mean * num_bins_range:\n                flat[k] += cycles[i, 2]\n',
+     'pass 6: np.ravel view, bounds tested against rows * columns'),
+    ("C10", 'break', ['C10-R5'], CYC, _ACC_OLD,
+     '        flat = markov_matrix.ravel()\n' + _FLAT_HEAD +
+     '            if (0 <= bim < num_bins_mean) and (0 <= bir < num_bins_range):\n                flat[bim * num_bins_mean + bir] += cycles[i, 2]\n',
+     'pass 6: flattened view indexed with the number of rows as the stride'),
+    ("C10", 'break', ['C10-R5'], CYC, _ACC_OLD,
+     '        flat = markov_matrix.ravel()\n' + _FLAT_HEAD +
+     '            if (0 <= bim < num_bins_mean) and (bir < num_bins_range):\n                flat[bim * num_bins_range + bir] += cycles[i, 2]\n',
+     'pass 6: flattened view, lower bound of the amplitude index not tested (index -1 lands in the previous mean row)'),
+    ("C10", 'neutral', [], CYC, _ACC_OLD,
+     '        flat = markov_matrix.ravel()\n' + _FLAT_HEAD +
+     '            if (0 <= bim < num_bins_mean) and (0 <= bir < num_bins_range):\n                flat[bim * num_bins_range + bir] += cycles[i, 2]\n',
+     'pass 6: flattened view, both indices tested per axis'),
+    ("C10", 'neutral', [], CYC, _ACC_OLD,
+     '        flat = np.ravel(markov_matrix)\n' + _FLAT_HEAD +
+     '            if bim < 0 or bim >= num_bins_mean or bir < 0 or bir >= num_bins_range:\n                continue\n'
+     '            flat[bir + num_bins_range * bim] += cycles[i, 2]\n',
+     'pass 6: np.ravel view, out-of-range cycles skipped with continue'),
+    ("C10", 'neutral', [], CYC, _ACC_OLD,
+     '        flat = markov_matrix.ravel()\n' + _FLAT_HEAD +
+     '            k = bim * num_bins_range + bir\n'
+     '            if (0 <= bim < num_bins_mean) and (0 <= bir < num_bins_range):\n                flat[k] += cycles[i, 2]\n',
+     'pass 6: flattened view, flat index computed before the per-axis test'),
 ]
